@@ -311,7 +311,10 @@ def run_cli(case, text, obs):
             from coco.b09.configs import CompilerConfigs
 
             cfg = CompilerConfigs.load(__import__("pathlib").Path(cfgf))
-    argv += [src, dst]
+    to_stdout = bool(case.get("to_stdout"))
+    argv += [src, "-" if to_stdout else dst]
+    if os.path.exists(dst):
+        os.remove(dst)
     opened = []
 
     def hook(event, args):
@@ -323,7 +326,13 @@ def run_cli(case, text, obs):
         sys._c11_hook = True
     _HOOKS.append(hook)
     saved = (sys.stdout, sys.stderr)
-    sys.stdout, sys.stderr = io.StringIO(), io.StringIO()
+
+    class Out(io.StringIO):
+        def close(self):           # the tool closes its output file; what it wrote is read afterwards
+            pass
+
+    sys.stdout, sys.stderr = Out(newline=""), io.StringIO()
+    captured = sys.stdout
     exc = None
     try:
         decb_to_b09.start(argv)
@@ -332,11 +341,15 @@ def run_cli(case, text, obs):
     finally:
         sys.stdout, sys.stderr = saved
         _HOOKS.pop()
-    obs["key"] = "cli|%s|%s|%s" % (stem, " ".join(flags), text)
+    obs["key"] = "cli|%s|%s|%s|%s" % (stem, " ".join(flags), text, to_stdout)
     want = harness.convert(text, compiler_configs=cfg, **opts) if cfg else harness.convert(text, **opts)
     detail = {"argv": argv[:-2] + [os.path.basename(src), os.path.basename(dst)], "source": text[:500], "mapped_options": opts}
     got = None
-    if os.path.exists(dst):
+    if to_stdout:
+        # the program on standard output ('-'): the same bytes as in a file - OS-9 line ends included
+        got = captured.getvalue().encode("utf-8", "replace")
+        obs["counters"]["cli_stdout_runs"] = 1
+    elif os.path.exists(dst):
         with open(dst, "rb") as f:
             got = f.read()
     if exc is not None or not want["ok"]:
@@ -414,6 +427,7 @@ def cases(tier, seed):
     helpers = '10 DIM N$(3)\n20 PLAY "C":HDRAW "U1":A=VAL(A$)+INSTR(1,A$,"X"):PRINT STRING$(2,"*")\n30 INPUT B$,C:N$(1)=B$:M$(2)=B$\n40 READ D:DATA ,1\n'
     for j, fs in enumerate(([], ["-s80"], ["-s16"], ["-s200", "-l"], ["-s33", "-z"], ["--default-string-storage=64"], ["-s80", "-D"], ["-s1"])):
         yield {"kind": "cli", "seed": 900 + j, "flags": fs, "stem": "helpers", "text": helpers}
+        yield {"kind": "cli", "seed": 950 + j, "flags": fs, "stem": "helpers", "text": helpers, "to_stdout": True}
     for i, t in enumerate(['10 DIM N$,A$(3),K\n20 N$="X":A$(1)=N$:K=LEN(N$)\n30 PRINT N$;A$(1);B$\n', '10 DIM Q$\n20 INPUT Q$\n30 IF Q$="" THEN 20\n',
                            '10 DIM S$(2,2),T$,U\n20 T$=STR$(U)+HEX$(U):S$(1,1)=T$\n30 READ T$:DATA X\n']):
         # programs that DIM their own scalar strings (the size option must re-size them, not declare them again)
@@ -422,4 +436,4 @@ def cases(tier, seed):
     for fs in flagsets + extra:
         for rep in range(1 if tier == "quick" else 8):
             k += 1
-            yield {"kind": "cli", "seed": seed * 15487469 + k, "flags": fs, "stem": stems[k % len(stems)], "sample": k % 10 == 0}
+            yield {"kind": "cli", "seed": seed * 15487469 + k, "flags": fs, "stem": stems[k % len(stems)], "sample": k % 10 == 0, "to_stdout": k % 4 == 2}
